@@ -7,6 +7,13 @@ validation with the constants of the code).  Binding, under testing/synctest vir
 http.RoundTripper on the real jsonclient.PostAndParseWithRetry / LogClient.AddChain / AddPreChain:
 replay of TLC behaviours (harness/vt/c13 TestReplay) and validation of recorded Call/Post/State/Return
 traces by TLC (TestTrace -> RetryTrace.tla); oracle-free monitors of the clauses on every timeline.
+
+The retained-results layer (Retry.tla: sent, retained, Hand, Inspect; ResultsAreValues, RetainedOwn, OneResultPerCall,
+IdsDistinct): what a submission returned is a value - every exchange of a process history has an identity (body unlike
+every other's, also in length), every returned result (error with status and body, *http.Response, body slice, parsed
+struct, SCT) is kept by the harness as it was handed out and rendered again after every later return and at the end of
+every client's life, over process histories of several consecutive clients (events Process / Return{id} / Inspect{seen},
+judged by RetryTrace.tla; monitor retained-result-changed).
 """
 import json
 import os
@@ -32,6 +39,10 @@ ASSUME = [
     "names, white space, member order, unknown scalar / nested members) and 11 unparsable ones (among them base64 without "
     "padding / in the URL alphabet); duplicate members, names differing in case, null members, non-integer number spellings "
     "are left unasserted",
+    "retained results: process histories of 8 (replay) / 6 (random scenarios) consecutive clients; every returned result is kept "
+    "as the caller was handed it and rendered again after every later return of the history and at the end of every client's "
+    "life; two clients are never alive at the same instant (clients of one history follow each other; callers sharing one "
+    "client are concurrent)",
 ]
 
 
@@ -86,7 +97,8 @@ def do_replay(ctx, replay):
         raise Infra("replay file carries neither a behaviour nor a scenario")
     sp = os.path.join(ctx.work, "scenario.json")
     with open(sp, "w") as f:
-        json.dump(data["scenario"], f)
+        # a kept result that changed: the consecutive clients of its process history, up to the one that showed it
+        json.dump(data.get("history") or data["scenario"], f)
     # jitter is drawn by the implementation: the scenario is repeated
     _, outdir, _ = ctx.go_test("vt/c13", run="TestScenario$", env={"VERIF_SCENARIO": sp, "VERIF_REPEAT": 40}, toolchain="go1.26",
                                race=True, name="c13scenario")
@@ -94,14 +106,15 @@ def do_replay(ctx, replay):
 
 
 def split_traces(ctx, tr, label, max_events=25000):
-    """Split a trace file at Reset events into chunks TLC validates one by one."""
+    """Split a trace file into chunks TLC validates one by one - at Process events only: the results returned through
+    earlier clients of one process history are looked at again after later ones (Inspect)."""
     chunks, cur, first, ntr, k = [], [], 0, 0, 0
     with open(tr) as f:
         for line in f:
+            if '"ev":"Process"' in line and len(cur) >= max_events:
+                chunks.append((first, cur))
+                cur, first = [], ntr
             if '"ev":"Reset"' in line:
-                if len(cur) >= max_events:
-                    chunks.append((first, cur))
-                    cur, first = [], ntr
                 ntr += 1
             cur.append(line)
     if cur:
@@ -140,6 +153,15 @@ def validate_traces(ctx, tr, scen, label):
         idx = first + sum(1 for x in lines[:lo] if '"ev":"Reset"' in x) - 1
         window = [json.loads(x) for x in lines[lo - 1:n + 2]]
         ev = stuck[0]["event"] if stuck else {}
+        history = None
+        if ev.get("ev") == "Inspect":
+            # the consecutive clients of the process history up to the one whose inspection is not explained
+            k, h0 = lo, idx
+            while k > 1 and '"ev":"Process"' not in lines[k - 1]:
+                k -= 1
+                if '"ev":"Reset"' in lines[k - 1]:
+                    h0 -= 1
+            history = scenarios[max(h0, 0):idx + 1] if 0 <= idx < len(scenarios) else None
         prev = None
         for e in window[:n - lo]:
             if e.get("ev") == "Post" and e.get("c") == ev.get("c", e.get("c")):
@@ -152,15 +174,28 @@ def validate_traces(ctx, tr, scen, label):
             after += "@hc=%s" % (hcs[-1] if hcs else "?")
         if r.violated and not stuck:
             fp = "trace:clause:%s" % r.violated
+        elif ev.get("ev") == "Inspect":
+            # which of the kept results is no longer a result any Return event of the process history handed out
+            handed = set()
+            for x in lines[:n - 1]:
+                if '"ev":"Process"' in x:
+                    handed = set()
+                elif '"ev":"Return"' in x:
+                    e = json.loads(x)
+                    handed.add((e.get("c"), e.get("res"), e.get("id")))
+            odd = [s for s in ev.get("seen", []) if (s.get("c"), s.get("k"), s.get("id")) not in handed]
+            fp = "trace:stuck:Inspect:retained-%s-changed" % (odd[0].get("k") if odd else "result")
         elif ev.get("ev") == "Return":
             fp = "trace:stuck:Return:%s-after:%s" % (ev.get("res", "?").split(":")[0], after)
         else:
             fp = "trace:stuck:%s-after:%s" % (ev.get("ev"), after)
         ctx.violation(fp, "a recorded execution of the real client is not a behaviour of Retry.tla: no placement of the silent "
                       "steps (status switch with backoff.set, reading the not-before instant, timer, end of the context) explains "
-                      "event %s (a request outside the allowed window, a wrong result, a late return or a wrong shared back-off state)"
-                      % json.dumps(ev, sort_keys=True),
-                      {"scenario": scenarios[idx] if 0 <= idx < len(scenarios) else None, "stuck": stuck, "violated": r.violated,
+                      "event %s (a request outside the allowed window, a wrong result, a late return, a wrong shared back-off state, "
+                      "a returned result that carries another response than the one that ended its submission, or a kept result that is "
+                      "no longer what was returned)" % json.dumps(ev, sort_keys=True)[:1500],
+                      {"scenario": scenarios[idx] if 0 <= idx < len(scenarios) else None, "history": history, "stuck": stuck,
+                       "violated": r.violated,
                        "trace_window": window, "tlc": r.out.splitlines()[-8:]})
         return
     ctx.traces += ntr
